@@ -940,7 +940,7 @@ func c14Scenario(c *Ctx, sh *shard, dir string, n int, p c14Plan, fsMeta bool) {
 				// minmax key), so the expected answer is the same; what the MetaStore holds for a file must
 				// still say so after later batches were buffered and flushed
 				qb := bs.NewQuery()
-				if (n+q.id)%2 == 1 {
+				if (n/2+q.id)%2 == 1 {
 					qb = qb.MatchPrefilter(bs.MinMax("id", bs.NumericGreaterThanEqual(0)))
 				}
 				res, err := eng.Query(context.WithValue(bg, c14ActorKey{}, actor), qb.Build())
